@@ -21,7 +21,7 @@ def check_case(case):
     return hoofam.run(case, "C06")
 
 
-LAWS = ["peak", "peakpos", "bump", "noise", "noise", "ties", "negative", "large", "const", "ramp"]
+LAWS = ["peak", "peakpos", "bump", "noise", "noise", "ties", "negative", "large", "const", "ramp", "twolevel", "twolevel"]
 
 
 def run_shard(ctx):
